@@ -343,7 +343,48 @@ def cluster_mode(outfile, seed, ntrials):
                     res["violations"].append({"mode": mode, "order": order, "missed": miss[:4], "spurious": extra[:4],
                                               "radii": [[ps[i][6] for i in m] for m in miss[:4]], "seed": seed, "trial": trial})
                 del sim
+    bounce_rows(res)
     json.dump(res, open(outfile, "w"))
+
+
+def bounce_rows(res):
+    """hard-sphere bounces of pairs with very unequal and zero radii: finite result, momentum to rounding, kinetic energy at restitution 1,
+    the pair left separating -- all four search modes"""
+    n = 0
+    for r1, r2 in ((1.0, 0.0), (0.0, 1.0), (0.5, 2.0), (1e-3, 1.0), (1.0, 1.0), (2.0, 1e-6)):
+        for m1, m2 in ((1.0, 1.0), (1.0, 1e-3), (2.5, 0.7)):
+            for mode in ("direct", "tree", "line", "linetree"):
+                sim = rebound.Simulation()
+                sim.integrator = "none"
+                sim.gravity = "none"
+                sim.configure_box(64.0)
+                sim.dt = 0.01
+                sim.dt_last_done = 0.01
+                sim.collision = mode
+                sim.collision_resolve = "hardsphere"
+                sep = 0.9 * (r1 + r2)
+                sim.add(m=m1, x=-1.0, y=0.5, z=0.25, vx=0.4, vy=0.1, vz=-0.05, r=r1)
+                sim.add(m=m2, x=-1.0 + sep * 0.8, y=0.5 + sep * 0.6, z=0.25, vx=-0.3, vy=-0.2, vz=0.1, r=r2)
+                p0 = [(p.m, p.x, p.y, p.z, p.vx, p.vy, p.vz) for p in sim.particles]
+                clibrebound.reb_collision_search(ctypes.byref(sim))
+                p1 = [(p.m, p.x, p.y, p.z, p.vx, p.vy, p.vz) for p in sim.particles]
+                n += 1
+                P0 = [sum(q[0] * q[4 + k] for q in p0) for k in range(3)]
+                P1 = [sum(q[0] * q[4 + k] for q in p1) for k in range(3)]
+                K0 = sum(0.5 * q[0] * (q[4] ** 2 + q[5] ** 2 + q[6] ** 2) for q in p0)
+                K1 = sum(0.5 * q[0] * (q[4] ** 2 + q[5] ** 2 + q[6] ** 2) for q in p1)
+                d = [p1[1][1 + k] - p1[0][1 + k] for k in range(3)]
+                dv = [p1[1][4 + k] - p1[0][4 + k] for k in range(3)]
+                finite = all(math.isfinite(c) for q in p1 for c in q)
+                changed = p1 != p0
+                okP = finite and max(abs(a - b) for a, b in zip(P0, P1)) <= 1e-14
+                okK = finite and abs(K1 - K0) <= 1e-14 * max(K0, 1e-300) * 4
+                sepa = finite and sum(a * b for a, b in zip(d, dv)) >= -1e-15
+                if not (finite and changed and okP and okK and sepa) and len(res["violations"]) < 10:
+                    res["violations"].append({"mode": mode, "order": "bounce r=(%g,%g) m=(%g,%g)" % (r1, r2, m1, m2), "missed": [], "spurious": [],
+                                              "radii": [[r1, r2]], "seed": 0, "trial": -1,
+                                              "bounce": {"finite": finite, "resolved": changed, "momentum": okP, "kinetic_energy": okK, "separating": sepa}})
+    res["bounce_rows"] = n
 
 
 if __name__ == "__main__":
